@@ -2,7 +2,7 @@
 
 PROP = {
     "targets": ["Props/C01.vo", "Corr/CorrCore.vo", "Corr/CorrC05b.vo"],
-    "cone": ["BC/CompileProofs.v", "BC/RunProofs.v", "BC/SemFacts.v"],
+    "cone": ["BC/CompileProofs.v", "BC/RunProofs.v", "BC/SemFacts.v", "BC/SchemesProofs.v", "Bridge/BrSchemes.v"],
     "harness": "c01",
     "mismatch_div": 16,
     "failure_bits": 8,
@@ -13,8 +13,8 @@ PROP = {
 }
 
 MANIFEST = {
-    "text": "Coq theorem compile_correct (kernel-checked): for every compilable expression, every environment and every stack/scope context, running the model compiler's code on the model VM yields exactly the value, failure class, failure location, allocation count and call trace that the reference big-step semantics assigns (induction on expression size, code_at/star simulation, loops by induction over the collection). Short-circuit and call-once/left-to-right are corollaries on the trace. Tie: on every run the Go compiler's bytecode is decoded in Coq and compared instruction by instruction with the model compiler, the byte-level assembler model (BC/Assemble.v, proved inverse to the decoder: C05) of the model compiler's code is compared byte for byte and constant for constant with Program.Bytecode / Constants / Locations, and both the model VM and the reference semantics are compared with what vm.Run returned (value with dynamic types, error class, error position, call log) on generated programs x environments.",
+    "text": "Coq theorem compile_correct (kernel-checked): for every compilable expression, every environment and every stack/scope context, running the model compiler's code on the model VM yields exactly the value, failure class, failure location, allocation count and call trace that the reference big-step semantics assigns (induction on expression size, code_at/star simulation, loops by induction over the collection). Short-circuit and call-once/left-to-right are corollaries on the trace. Tie BY REGENERATION: the translator reads every code-generation method of compiler/compiler.go (22 node methods, emitLoop / emitCond / emitPush, the tail of Compile, patchJump / calcBackwardJump arithmetic) statement by statement into a scheme DSL (gen/GenSchemes.v; anything it does not recognise is an SUnrecognised entry), BC/Schemes.v interprets schemes the way the Go compiler runs (sequential emission, byte offsets, placeholders patched), and Bridge/BrSchemes.v proves on every run that the compiler obtained from the REGENERATED schemes alone IS the model compiler of compile_correct, for every compilable expression and all sub-code sizes (C01_model_compiler_is_source_schemes, _closed; one lemma per node kind / operator group / builtin, so a changed scheme names its culprit). Tie by execution: on every run the Go compiler's bytecode is decoded in Coq and compared instruction by instruction with the model compiler, the byte-level assembler model (BC/Assemble.v, proved inverse to the decoder: C05) of the model compiler's code is compared byte for byte and constant for constant with Program.Bytecode / Constants / Locations, and both the model VM and the reference semantics are compared with what vm.Run returned (value with dynamic types, error class, error position, call log) on generated programs x environments.",
     "design_ref": "DESIGN.md §4 C01",
     "note": "Trusted: Coq kernel + vm_compute; the hand-written reference semantics and primitive-operation model (validated by execution against vm.Run each run); serialisers; regexp/math.Pow oracles; harness universe of environment types.",
-    "technique": "Coq proof of compiler correctness (simulation, induction on AST size) + executed correspondence of decoded Go bytecode, model VM and reference semantics",
+    "technique": "Coq proof of compiler correctness (simulation, induction on AST size) + translator-regenerated code-generation schemes proved equal to the model compiler (bridge, per node kind) + executed correspondence of decoded Go bytecode, model VM and reference semantics",
 }
